@@ -40,6 +40,14 @@ Theorem C20_temporary : forall (func : store -> store * res pv) size s,
 Proof. exact temporary_lemma. Qed.
 Print Assumptions C20_temporary.
 
+(** ... in particular when the wrapped function is entered again while it is running (recursion, a curve defined
+    through another curve): every level is one more application of the wrapper, hence one more [func] *)
+Theorem C20_temporary_reentrant : forall d (func : store -> store * res pv) size s,
+  in_domain size = true -> mc_ok s ->
+  sget (fst (wrapper (nest d func size) size s)) "monte_carlo_sample_size" = sget s "monte_carlo_sample_size".
+Proof. intros d func size s. exact (temporary_lemma (nest d func size) size s). Qed.
+Print Assumptions C20_temporary_reentrant.
+
 (** the hypothesis [mc_ok] holds in every reachable state *)
 Theorem C20_mc_ok_reachable : forall ops, forallb op_in_domain ops = true -> mc_ok (run ops init_cfg).
 Proof.
